@@ -380,3 +380,44 @@ package mqtt
 //@   loop 1 iter[C18,C01] close_on_error: evCount("fntype:func(ctx context.Context, cli *BaseClient)") == 1 ==>
 //@        evCount("Transport.Close") == ite(connected_next, 0, 1) && !c.newRetryByError
 //@   loop 2 exit[C01] connect_returned: evCount("select") == 1 && evRet[int]("select", 0, 0) == 0 && !evRet[bool]("select", 0, 1)
+
+//@ spec
+//@ func hasTopic(ts []string, t string) bool { return exists(0, len(ts), func(i int) bool { return ts[i] == t }) }
+//@
+//@ // entry f of the retry queue is a deferred Unsubscribe that removes filter t
+//@ func deferredUnsubOf(f retryFn, t string) bool {
+//@ 	return closureIs(f, "(*RetryClient).unsubscribe$1") && hasTopic(*closureVar[*[]string](f, "(*RetryClient).unsubscribe$1", 0), t)
+//@ }
+//@ end
+
+//@ func (*RetryClient).Resubscribe$1
+//@   mode int
+//@   props C01 C03 C08
+//@   requires c != nil && cli != nil && ctx != nil && cli.Transport != nil
+//@   let old ssnap[Subscription] = sliceSnap(c.subEstablished)
+//@   requires forall(0, ssLen(old), func(i int) bool { return ssAt(old, i).QoS <= QoS2 && len(ssAt(old, i).Topic) <= 0xFFFF })
+//@   assigns c.subEstablished; c.retryQueue; c.newRetryByError; cli.idLast
+//@   loop 1 invariant copy: len(oldSubEstablished) == ssLen(old) && forall(0, ssLen(old), func(i int) bool { return oldSubEstablished[i] == ssAt(old, i) }) &&
+//@        !sameArray(oldSubEstablished, c.subEstablished)
+//@   loop 1 iter[C08,C03] reissue_one: evCount("(*RetryClient).subscribe") == 1 && evArg[bool]("(*RetryClient).subscribe", 0, 2) == true &&
+//@        evArg[*BaseClient]("(*RetryClient).subscribe", 0, 3) == cli && ssLen(evSlice[Subscription]("(*RetryClient).subscribe", 0, 4)) == 1
+//@   loop 1 iter[C08,C03] reissue_qos: ssAt(evSlice[Subscription]("(*RetryClient).subscribe", 0, 4), 0).QoS == ssAt(old, rangeindex+1).QoS
+//@   loop 1 iter[C08,C03] reissue_topic: ssAt(evSlice[Subscription]("(*RetryClient).subscribe", 0, 4), 0).Topic == ssAt(old, rangeindex+1).Topic
+//@   loop 1 iter[C08] no_stale_resubscribe: !exists(0, len(c.retryQueue), func(j int) bool { return deferredUnsubOf(c.retryQueue[j], ssAt(old, rangeindex+1).Topic) })
+//@   ensures[C08] nothing_else: evCount("(*BaseClient).Subscribe") == 0 && evCount("(*BaseClient).Unsubscribe") == 0 && evCount("(*BaseClient).Publish") == 0
+
+//@ func (*RetryClient).Resubscribe
+//@   mode int
+//@   props C08
+//@   requires c != nil && ctx != nil
+//@   assigns nothing
+//@   ensures[C08] pushed: evCount("(*RetryClient).pushTask") == 1 && closureIs(evArg[taskFn]("(*RetryClient).pushTask", 0, 2), "(*RetryClient).Resubscribe$1") &&
+//@        *closureVar[**RetryClient](evArg[taskFn]("(*RetryClient).pushTask", 0, 2), "(*RetryClient).Resubscribe$1", 0) == c
+
+//@ func (*RetryClient).Retry
+//@   mode int
+//@   props C01 C03
+//@   requires c != nil && ctx != nil
+//@   assigns nothing
+//@   ensures[C01,C03] pushed: evCount("(*RetryClient).pushTask") == 1 && closureIs(evArg[taskFn]("(*RetryClient).pushTask", 0, 2), "(*RetryClient).Retry$1") &&
+//@        *closureVar[**RetryClient](evArg[taskFn]("(*RetryClient).pushTask", 0, 2), "(*RetryClient).Retry$1", 0) == c
